@@ -1,36 +1,36 @@
 import json, os, shutil, glob
-W='k'
+W='l'
 rows = {
- 'C01': ("FORMAT_DESCRIPTION events after the first one of a dump are skipped (format frozen)",
-         "one dump that crosses into a file whose checksum setting differs from the first file's",
-         "C01: count, panic, query, row-count, stream-result"),
- 'C02': ("status-variable block length of a QUERY event read as one byte",
-         "a boundary statement (BEGIN/COMMIT/...) whose status-variable block is 256 bytes or longer",
+ 'C01': ("events of 258049..262143 bytes used in place inside the driver's cached read buffer (copy elision with a wrong threshold)",
+         "one event in the 4 KiB window just under 256 KiB with buffer-referencing values, followed by more packets before delivery",
+         "C01: count, panic, stream-result"),
+ 'C02': ("FORMAT_DESCRIPTION events after the first skipped: checksum setting frozen at the first file's",
+         "a dump that crosses into a file with a different checksum setting and holds a BEGIN..COMMIT transaction there",
          "C02: early-delivery, grouping, rollback-delivered"),
- 'C03': ("events whose header server_id equals the replica's own id dropped, offset moved past them",
-         "a binlog in which some transactions carry the replica's own server id",
-         "C03: chain, content:count, crash-restart-exactly-once"),
- 'C04': ("a ROTATE that arrives while a transaction is open does not move the resume position",
-         "a file that ends with an unfinished transaction, a transaction accepted in the next file, then a retry",
-         "C04: reordered"),
- 'C05': ("reader posts a package-level *Error sentinel that msgf mutates",
-         "two reader goroutines leaving through the ctx.Done branch without a happens-before edge (second Stream call without Error() in between)",
-         "C05: race - **missed at first** (race mode now skips the optional Error() call between attempts in a third of the runs)"),
- 'C06': ("Stream returns nil when parseEvents failed while the caller's context is cancelled",
-         "a handler / mapper / decode failure returned while the context is already cancelled",
-         "C06: stream-nil-on-failure - **missed at first** (a handler call that returned an error or a failed table lookup must now yield a non-nil Stream result whatever other causes overlap; before, overlapping causes that began with a cancel were not judged)"),
- 'C07': ("a ROTATE directly after another ROTATE skipped, FORMAT_DESCRIPTION does not clear the flag",
-         "a binlog file holding only its FORMAT_DESCRIPTION and the closing ROTATE, then an accepted transaction, then a retry",
-         "C07: offset"),
- 'C08': ("delivered Events slice is the parser's scratch slice when len == cap (16, 32, ...)",
-         "a transaction of exactly 16 (32, 64) changes that the handler retains, followed by any further event",
-         "C08: mutated-after-delivery"),
- 'C15': ("Bitmap.BitCount counts set padding bits of the last byte",
-         "a partial row image whose columns-present bitmap has its unused bits set to 1",
-         "C15: panic (C01 value rules as well) - **missed at first** (the encoder zero-padded every bitmap; unused bits of row NULL bitmaps - as the server writes them - columns-present bitmaps and the table-map nullability bitmap are now set in most histories)"),
- 'C17': ("StripChecksum clips the capacity of the stripped event",
-         "a gate-accepted bare header (19/20 bytes, consistent length) of type XID on a checksummed stream",
-         "C17: panic - **missed at first** (bare headers of 19..22 bytes that pass the gate are now injected; only the no-panic clause is judged for them)"),
+ 'C03': ("in-transaction flag kept in the Streamer across Stream calls (same change as C02-j, judged on labels)",
+         "a Stream call that ends inside an open transaction, then the same Streamer re-pointed with SetBinlogPosition to a delivered end label that is followed by a unit without BEGIN",
+         "C03: resume-suffix - **missed at first** (C03 resumed only with fresh Streamers; a third of its two-call cases now re-point the same Streamer to one of the end labels it delivered, after a call that ended at an arbitrary point or with a refused transaction)"),
+ 'C04': ("handler error not treated as a failure when the context is already cancelled: position moves past the refused transaction",
+         "a handler that returns an error while the caller's context is cancelled, then a retry",
+         "C04: resume-coordinate"),
+ 'C05': ("handler error equal to context.Canceled swallowed by commit; the loop waits for ctx.Done()",
+         "a handler returning the value context.Canceled while Stream's own context is alive",
+         "C05: stream-hang"),
+ 'C06': ("rows events for the unmapped table id 0x00ffffff skipped as 'dummy events' instead of failing",
+         "a rows event with real rows for table id 0xffffff that no table map announced",
+         "C06: stream-nil-on-failure - **missed at first** (the decode-failure unit of C06 now also comes as a rows event for a table id no table map announced: 0xffffff, 2^32-1, 2^48-1, 1, random)"),
+ 'C07': ("format kept in the Streamer across attempts: the artificial ROTATE that opens a dump is decoded with the previous attempt's checksum setting",
+         "checksum setting of the connection differing from the one the previous attempt saw; an attempt that ends before a real ROTATE; a further attempt",
+         "C07: file"),
+ 'C08': ("absent columns of partial row images share one cached *ColumnData per table column",
+         "partial row images with the same column absent in two rows / transactions and a consumer that writes the delivered cell",
+         "C08: later-delivery-corrupted, scribble-propagated"),
+ 'C15': ("column-count offset of a rows event taken from the post-header length instead of var_header_len",
+         "a v2 rows event with extra row info (var_header_len > 2)",
+         "C15: attribution, panic"),
+ 'C17': ("packets whose next_position lies before the resume offset dropped before the validity gate at the start of a resumed dump",
+         "a malformed packet of at least 19 bytes right after the opening ROTATE/FORMAT_DESCRIPTION of a dump that starts above offset 4, with next_position within 1..resume offset",
+         "C17: accepted-malformed"),
 }
 for p,(chg,needs,caught) in rows.items():
     src=f'/tmp/wt-{p}-{W}/_seeded'
